@@ -23,7 +23,7 @@ BUDGET = {"quick": {"shards": 8, "examples": 250}, "thorough": {"shards": 16, "e
 VALUES = G.IDENT_T + G.UNQ_T + G.VAR_T + G.BRACKET_T + G.QUOTED_T + [
     '""', '"a\\"b@"', '"\\"@\\""', "x", "1", '"x"', '" lead@"', '"trail@ "', 'a@\\"', '\\"@', '"a@\\\\"', "a\\;b@", '"#[[@"',
     '":field: @"', '"*@*"', "ON", "[[]]", '"@\\n"',
-    "Ns@::", '"My Lib@::"', "a@:", '"::"', "::", "`@`", "*@", "|@|", '"@\\\\"']
+    "m\u00b2@", '"\u2026@"', "\u2122@", "\ufb01@", "\uff38@", "Ns@::", '"My Lib@::"', "a@:", '"::"', "::", "`@`", "*@", "|@|", '"@\\\\"']
 
 
 def strategy(tier):
